@@ -355,6 +355,11 @@ func TestWorker(t *testing.T) {
 		sc := gen.Generate(profile, seed)
 		res := engine.Run(t, sc)
 		vs := oracle.Check(prop, sc, res)
+		if res.Steps == 0 && len(sc.Tasks) > 0 {
+			// the scheduler never made a step: the harness could not even start the run (a constructor of the library
+			// blocked on something the simulated kernel has to serve). Nothing about the property can be concluded
+			emit(map[string]any{"kind": "infrastructure", "seed": seed, "msg": "the simulated run did not start: " + res.BubblePanic})
+		}
 
 		if sum.Runs == 0 {
 			sum.FirstSeed = seed
